@@ -393,10 +393,16 @@ def real_dispatchers(r, rng, thorough):
     asyncore.dispatcher.send = counting_send        # observation only: how the socket took what it was given (non-vacuity of the partial-send paths)
     try:
         for kind in ("socket", "asyncore"):
+            stuck = 0
             for i, (label, sc) in enumerate(scripts):
                 ev, errs = realnet.run_scenario(kind, sc, rng, via_event=(i % 2 == 0))
                 runs.append((kind, label, sc, realnet.coalesce(ev), errs))
                 r.case(("real-dispatcher", kind, json.dumps(sc)))
+                # every wait that times out costs half a minute: a dispatcher that keeps getting stuck is not run through all scenarios
+                stuck += 1 if (errs or any(e["e"] == "Quiet" and e["what"] not in ("open", "over") for e in ev)) else 0
+                if stuck >= 3:
+                    r.notes["real_dispatcher_%s_stopped_after" % kind] = i + 1
+                    break
     finally:
         asyncore.dispatcher.send = orig_send
     r.notes["asyncore_socket_sends"] = stats
